@@ -25,17 +25,18 @@ def run(ctx):
     # GOMAXPROCS keeps the stop-the-world goroutine dumps cheap on an oversubscribed machine.
     goenv = {"GOFLAGS": "-mod=mod -exec=/verif/lib/netns_exec.sh", "GOMAXPROCS": "4"}
 
-    def replay(behs, label):
-        p = ctx.write_json("paths-%s.json" % label, {"behaviours": behs, "timeout_ms": timeout_ms, "workers": workers})
-        return ctx.go_test(PKG, FILES, "^%s$" % TEST, env=dict(goenv, VERIF_IN=p), timeout=1500, label=label)
+    def replay(behs, label, tmo=None, race=False):
+        p = ctx.write_json("paths-%s.json" % label, {"behaviours": behs, "timeout_ms": tmo or timeout_ms, "workers": workers, "max_sigs": 3})
+        return ctx.go_test(PKG, FILES, "^%s$" % TEST, env=dict(goenv, VERIF_IN=p), timeout=1500, label=label, race=race)
 
     def confirm(rp):
-        recs, out, rc = replay([rp["behaviour"]], "confirm")
+        # a single path: a long timer, so that a timeout path's released results are certainly consumed before it fires
+        recs, out, rc = replay([rp["behaviour"]], "confirm", 1500)
         return any(r.get("k") == "mismatch" for r in recs)
 
     if ctx.replay:
         rp = json.load(open(ctx.replay))["replay"]
-        recs, out, rc = replay([rp["behaviour"]], "replay")
+        recs, out, rc = replay([rp["behaviour"]], "replay", 1500)
         done = ctx.process(recs, out, rc, TEST, None)
         return ctx.finish("model_checking", {"replayed_behaviours": done.get("behaviours", 0)})
 
@@ -87,11 +88,21 @@ def run(ctx):
     recs, out, rc = replay(behs, "replay")
     done = ctx.process(recs, out, rc, TEST, confirm)
     ctx.cov["traces_validated_against_impl"] += done.get("behaviours", 0)
+    if not ctx.quick():
+        # the same replay for the one/two-owner paths under the race detector (collector, owner goroutines, harness)
+        recs2, out2, rc2 = replay(behs[:n12], "race", race=True)
+        if "DATA RACE" in out2:
+            raise Infra("race detector report during the replay:\n%s" % out2[-6000:])
+        ctx.process(recs2, out2, rc2, TEST, confirm)
     ctx.cov["exhaustive"] = exhaustive
     extra = {"replayed_behaviours": done.get("behaviours", 0), "replayed_steps": done.get("steps", 0),
              "paths_total": n12 + n3, "paths_held": done.get("held", 0),
              "timeout_paths": done.get("timeout_paths", 0),
              "timeout_paths_prefix_consumed_before_return": done.get("timeout_paths_prefix_consumed_before_return", 0),
+             "through_WritePointsPrivileged": done.get("through_WritePointsPrivileged", 0),
+             "returns_later_than_model": done.get("returns_later_than_model", 0),
+             "returns_earlier_than_model": done.get("returns_earlier_than_model", 0),
+             "goroutine_dumps": done.get("goroutine_dumps", 0),
              "mismatch_signatures": done.get("signatures", {})}
     return ctx.finish("model_checking", extra, assumptions=[
         "collaborators (TSDBStore, ShardWriter, HintedHandoff, MetaClient) are scripted: 'stored' means the collaborator returned nil",
